@@ -506,7 +506,9 @@ def run(ctx):
     if exe:
         for lo in range(0, len(pairs), 200):
             chunk = pairs[lo:lo + 200]
-            correspond_mapping(ctx, exe, chunk)
+            try: correspond_mapping(ctx, exe, chunk)
+            except Exception as e:      # an object the encoding cannot handle: a disagreement, not a crash; the oracle below finds the input
+                ctx.disagreement('correspond_mapping-runs', {'note': 'correspondence could not be evaluated'}, 'evaluable', repr(e)[:300])
             ctx.log('  mapping correspondence done')
             jobs = []
             for i, p in enumerate(chunk):
@@ -517,7 +519,9 @@ def run(ctx):
                 case = {'nvar': 1 + (lo + i) % 6, 'vseed': 1000 + lo + i}
                 jobs.append((p, case))
                 if O.atm_finding_class(p.src, p.dst): jobs.append((p, dict(case, explicit=True)))
-            correspond_incon(ctx, exe, jobs)
+            try: correspond_incon(ctx, exe, jobs)
+            except Exception as e:      # an object the encoding cannot handle: a disagreement, not a crash; the oracle below finds the input
+                ctx.disagreement('correspond_incon-runs', {'note': 'correspondence could not be evaluated'}, 'evaluable', repr(e)[:300])
             ctx.log('  incon correspondence done')
             gjobs = []
             for i, p in enumerate(chunk):
@@ -525,8 +529,12 @@ def run(ctx):
                 ok_, uc, cl = p.comparable()
                 if len(uc) != p.dst.num_columns or len(cl) != p.dst.num_layers - 1: continue
                 gjobs.append((p, {'gseed': 500 + lo + i, 'rename': bool((lo + i) & 1), 'preserve': bool((lo + i) & 2)}))
-            correspond_generators(ctx, exe, gjobs)
-            correspond_data(ctx, exe, [(p, dict(c, gseed=c['gseed'] + 300)) for p, c in gjobs])
+            try: correspond_generators(ctx, exe, gjobs)
+            except Exception as e:      # an object the encoding cannot handle: a disagreement, not a crash; the oracle below finds the input
+                ctx.disagreement('correspond_generators-runs', {'note': 'correspondence could not be evaluated'}, 'evaluable', repr(e)[:300])
+            try: correspond_data(ctx, exe, [(p, dict(c, gseed=c['gseed'] + 300)) for p, c in gjobs])
+            except Exception as e:      # an object the encoding cannot handle: a disagreement, not a crash; the oracle below finds the input
+                ctx.disagreement('correspond_data-runs', {'note': 'correspondence could not be evaluated'}, 'evaluable', repr(e)[:300])
         ctx.log('correspondence done at %.1fs' % (time.time() - ctx.t0))
     oracle(ctx, pairs)
 
